@@ -219,7 +219,7 @@ def bytes_(**kwargs):
 
         @staticmethod
         def _encode(value):
-            return value.ljust(size, b'\x00')
+            return (value or b'').ljust(size, b'\x00')
 
         @staticmethod
         def _decode(data, pos, len_hint):
